@@ -9,8 +9,7 @@
    Classical_Prop.classic. *)
 From Coq Require Import ZArith Reals Lia Lra Psatz Floats.SpecFloat.
 From Flocq Require Import Core.Core IEEE754.BinarySingleNaN.
-From Flocq Require IEEE754.PrimFloat.
-From PyUbx Require Import Base PyFloat Types Walk Consts Tables.
+From PyUbx Require Import Base PyFloat Types Walk Consts Tables Flocq_bridge.
 Open Scope R_scope.
 
 Definition R_of (f : fl) : R := SF2R radix2 f.
@@ -24,7 +23,7 @@ Definition fin (f : fl) : Prop := is_finite_SF f = true /\ valid_binary 53 1024 
 
 Lemma aux_equiv sx mx ex lx :
   SpecFloat.binary_round_aux 53 1024 sx mx ex lx = binary_round_aux 53 1024 mode_NE sx mx ex lx.
-Proof. exact (PrimFloat.binary_round_aux_equiv sx mx ex lx). Qed.
+Proof. exact (aux_equiv' 53 1024 sx mx ex lx). Qed.
 
 Lemma fexp_eq : fexp 53 1024 = fexp64.
 Proof. reflexivity. Qed.
@@ -184,10 +183,9 @@ Qed.
 Lemma f_of_Z_fin z : (Z.abs z < 2 ^ 53)%Z -> fin (f_of_Z z) /\ R_of (f_of_Z z) = IZR z.
 Proof.
   intros Hz. unfold f_of_Z. change PyFloat.prec with 53%Z. change PyFloat.emax with 1024%Z.
-  pose proof (PrimFloat.binary_normalize_equiv z 0 false) as Eq.
-  change FloatOps.prec with 53%Z in Eq. change FloatOps.emax with 1024%Z in Eq. rewrite Eq. clear Eq.
-  pose proof (binary_normalize_correct 53 1024 PrimFloat.Hprec PrimFloat.Hmax mode_NE z 0 false) as H. cbv zeta in H.
-  set (b := binary_normalize 53 1024 PrimFloat.Hprec PrimFloat.Hmax mode_NE z 0 false) in *.
+  rewrite (normalize_equiv' 53 1024 Hprec Hmax z 0 false).
+  pose proof (binary_normalize_correct 53 1024 Hprec Hmax mode_NE z 0 false) as H. cbv zeta in H.
+  set (b := binary_normalize 53 1024 Hprec Hmax mode_NE z 0 false) in *.
   assert (Hx : F2R (Float radix2 z 0) = IZR z) by (unfold F2R; cbn; ring).
   rewrite Hx in H.
   assert (Hg : generic_format radix2 (fexp 53 1024) (IZR z)).
